@@ -16,13 +16,19 @@ R5  a buffer installed during yywrap is noticed.  yyrestart, yy_switch_to_buffer
     change the current buffer to their return (paths on which no buffer remains excepted); yylex clears the flag between
     the refill and the yywrap call with no call in between, and on the zero edge of yywrap restarts on yyin exactly when the
     flag is still clear.
+R9  a buffer without an input file is never fillable and a buffer that is not fillable is never read into: every store to
+    yy_fill_buffer is 0, or non-zero under (or equal to) a test that the buffer's input file is non-null; yy_scan_buffer
+    stores 0 on every path that returns the buffer; yy_get_next_buffer reads only behind yy_fill_buffer != 0.
+R10 the operator of the "really a NUL" comparison yy_c_buf_p ~ &yy_ch_buf[yy_n_chars] fits the distance of the pointer from
+    the byte at that point (derived from where yy_get_next_buffer expects the byte and from the advance of the pointer
+    between the comparison and the call): evaluated for all small positions, it refills exactly for position >= yy_n_chars.
 """
 import re
 import ir, flow, variants
 from common import where, fwhere
 import scanner_ids as S
 from scanner_ids import scanner
-from c05 import Cases, loop_over_conditions, esig, array_elem, action_switch, eob_constant, eof_action_stores, stores_of, loads_of, copies_of
+from c05 import Cases, loop_over_conditions, esig, array_elem, action_switch, eob_constant, eof_action_stores, eof_action_stores_deep, stores_of, loads_of, copies_of
 
 # ---------------------------------------------------------------- shared scanner facts
 
@@ -89,7 +95,7 @@ def r1(ctx, sc):
         n += 1
         key = sc.key('C10.R1', canon, 'yywrap')
         if canon == 'yylex':
-            Es = [x for _, x in eof_action_stores(sc, f)]
+            Es = [x for _, x in eof_action_stores_deep(sc, f)]      # (also when the start state is kept in a local first)
             if not Es: rep.broken('C10.R1: EOF action assignment not found in yylex of %s' % v.name)
             E = Es[0]
         if not ws:
@@ -525,6 +531,208 @@ def r8(ctx, sc):
         rep.ok('C10.R8', '%s yylex: current->yy_input_file = yyin under status == NEW; yyin is never assigned from the buffer' % v.name)
     return 1
 
+
+# ---------------------------------------------------------------- R9
+
+def _null_tests_controlling(fn, c0, blk):
+    """[(branch, tested pointer value)] null tests on whose NON-NULL edge blk is (transitively) control dependent"""
+    out = []
+    for br, t in c0.control_deps_closure(blk):
+        bn = flow.branch_on_null(fn, br) if br.op == 'br' else None
+        if bn is not None and t.name == bn[2]: out.append((br, flow.strip_casts(fn, bn[0])))
+    return out
+
+def r9(ctx, sc):
+    """R9: a buffer without an input file is never marked fillable, and a buffer that is not fillable is never read into.
+    An in-memory buffer (yy_scan_buffer/_bytes/_string) has yy_input_file == NULL and yy_fill_buffer == 0; its end is the end of
+    input.  yyinput() at the end of such a buffer calls yyrestart(yyin) with yyin == NULL, which re-initialises the buffer through
+    yy_init_buffer(b, NULL); if that marks it fillable the next refill reads from a NULL file.  So, in every variant:
+    (a) every store to yy_fill_buffer anywhere in the scanner is the constant 0, or a non-zero constant that is control dependent
+        on the non-null edge of a test of the input file of the same buffer (the field just assigned, or the file parameter that
+        was assigned to it, with no later assignment of the field in between), or the value of such a comparison itself;
+    (b) yy_scan_buffer stores 0 on every path that returns the new buffer;
+    (c) in yy_get_next_buffer every input call lies behind the non-zero edge of a test of the current buffer's yy_fill_buffer."""
+    rep = ctx.rep; v = sc.v; n = 0
+    for f in sc.mod.functions.values():
+        res = ir.Resolver(f)
+        st = [x for x in f.ins if x.op == 'store' and sc.is_buf(res.loc(x.ops[1]), 'yy_fill_buffer')]
+        if not st: continue
+        c = sc.canon(f); c0 = sc.prog.cfg(f, cut=False); cfg = sc.prog.cfg(f)
+        file_stores = [y for y in f.ins if y.op == 'store' and sc.is_buf(res.loc(y.ops[1]), 'yy_input_file')]
+        def is_file_value(p, at):
+            """p (a pointer value tested at instruction `at`) is the input file of the buffer whose flag is stored"""
+            d = f.def_of(p)
+            if d is None or d.op != 'load': return False
+            l = res.loc(d.ops[0])
+            if sc.is_buf(l, 'yy_input_file'):
+                # the field itself: still the value the function assigned (no assignment of the field between the load and `at`)
+                return not any(y in cfg.reach(d) and at in cfg.reach(y) for y in file_stores)
+            if l[0] == 'local':
+                # a local / parameter: it is what the function assigns to the field
+                def same(val):
+                    dd = f.def_of(flow.strip_casts(f, val))
+                    return dd is not None and dd.op == 'load' and res.loc(dd.ops[0]) == l
+                return any(same(y.ops[0]) for y in file_stores)
+            return False
+        for x in st:
+            n += 1
+            key = sc.key('C10.R9', c, 'fill-without-file')
+            val = S.strip_ext(f, x.ops[0])
+            if val[0] == 'int' and val[1] == 0:
+                rep.ok('C10.R9', '%s %s:%s yy_fill_buffer := 0' % (v.name, c, x.line)); continue
+            if val[0] == 'int':
+                good = [br for br, p in _null_tests_controlling(f, c0, x.blk) if is_file_value(p, x)]
+                if good: rep.ok('C10.R9', '%s %s:%s yy_fill_buffer := %d only on the non-null edge of the test of the input file @%s' % (v.name, c, x.line, val[1], good[0].line))
+                else:
+                    rep.fail('C10.R9', key, where(x), '%s marks a buffer as fillable (yy_fill_buffer = %d) without having found its input file non-null: an in-memory buffer '
+                             '(yy_scan_string/_bytes/_buffer: no file) that is re-initialised - yyinput() at its end calls yyrestart(yyin) with yyin == NULL - is then refilled with '
+                             'fread()/getc() on a NULL FILE* at the next end-of-buffer instead of reporting end of input (yywrap, <<EOF>>) [variant %s]' % (c, val[1], v.name), variant=v.describe(),
+                             replay_input='%%\n"/*"  { int c; while ((c = yyinput()) > 0) ; puts("open comment"); }\n.|\\n ;\n<<EOF>> { puts("EOF"); return 0; }\n%%\n'
+                                          '-- yy_scan_string("ab /* never closed"); yylex(); yylex(): must print EOF twice, crashes in fread(NULL)')
+                continue
+            d = f.def_of(val)
+            if d is not None and d.op == 'icmp' and d.pred == 'ne' and ('null',) in d.ops and is_file_value(flow.strip_casts(f, [o for o in d.ops if o != ('null',)][0]), x):
+                rep.ok('C10.R9', '%s %s:%s yy_fill_buffer := (input file != NULL)' % (v.name, c, x.line)); continue
+            rep.fail('C10.R9', key, where(x), '%s stores a computed value into yy_fill_buffer that is not "the input file is non-null" [variant %s]' % (c, v.name), variant=v.describe())
+    g = sc.fn('yy_scan_buffer')
+    if g is not None:
+        n += 1
+        res = ir.Resolver(g); cfg = sc.prog.cfg(g)
+        zero = [x for x in g.ins if x.op == 'store' and sc.is_buf(res.loc(x.ops[1]), 'yy_fill_buffer') and S.strip_ext(g, x.ops[0]) == ('int', 0)]
+        bad = [y for y in g.ins if y.op == 'store' and y.ops[1] == ('reg', 'retval') and y.ops[0] != ('null',) and y in S.entry_reach(cfg, g, avoid=zero)]
+        if bad or not zero:
+            rep.fail('C10.R9', sc.key('C10.R9', 'yy_scan_buffer', 'not-fillable'), where(bad[0]) if bad else fwhere(g),
+                     'yy_scan_buffer can return the new in-memory buffer without having set yy_fill_buffer to 0: the end of the text would be followed by a read from a NULL file [variant %s]' % v.name, variant=v.describe())
+        else: rep.ok('C10.R9', '%s yy_scan_buffer: yy_fill_buffer := 0@%s on every path that returns the buffer' % (v.name, zero[0].line))
+    g = sc.fn('yy_get_next_buffer')
+    if g is not None:
+        n += 1
+        res = ir.Resolver(g); cfg = sc.prog.cfg(g)
+        key = sc.key('C10.R9', 'yy_get_next_buffer', 'reads-only-if-fillable')
+        zero_edges = []
+        for b in g.blocks:
+            br = b.ins[-1]
+            if br.op != 'br' or not br.ops: continue
+            for t in br.targets:
+                con = S.edge_constraint(g, br, t)
+                if con and con[0] == 'eq' and con[2] == ('int', 0):
+                    d = g.def_of(S.strip_ext(g, con[1]))
+                    if d is not None and d.op == 'load' and sc.is_buf(res.loc(d.ops[0]), 'yy_fill_buffer') and sc.via_current(res.loc(d.ops[0])): zero_edges.append((br, t))
+        reads = [y for y in g.ins if y.op in ('call', 'invoke') and sc.callee(y) in INPUT_CALLS]
+        if not reads: rep.broken('C10.R9: yy_get_next_buffer of %s has no input call' % v.name)
+        bad = [y for br, t in zero_edges for y in cfg.reach_from_block(g.bmap[t]) if y in reads]
+        unguarded = [y for y in reads if y in S.entry_reach(cfg, g, avoid=[br for br, t in zero_edges])]
+        if not zero_edges or unguarded:
+            rep.fail('C10.R9', key, where(unguarded[0]) if unguarded else fwhere(g), 'yy_get_next_buffer can read the input source without having tested yy_fill_buffer of the current buffer [variant %s]' % v.name, variant=v.describe())
+        elif bad: rep.fail('C10.R9', key, where(bad[0]), 'yy_get_next_buffer reads the input source although the buffer is marked as not fillable [variant %s]' % v.name, variant=v.describe())
+        else: rep.ok('C10.R9', '%s yy_get_next_buffer: %d input call(s), all behind yy_fill_buffer != 0' % (v.name, len(reads)))
+    return n
+
+# ---------------------------------------------------------------- R10
+
+def _is_var_load(sc, fn, res, v, *canon):
+    d = fn.def_of(S.strip_ext(fn, v)) if v[0] == 'reg' else None
+    return d is not None and d.op == 'load' and any(sc.is_var(res.loc(d.ops[0]), c) for c in canon)
+
+def eob_byte_distance(sc):
+    """D such that yy_get_next_buffer() takes the end-of-buffer byte it was called for to sit at yy_c_buf_p - D: the constant in
+    its computation  number_to_move = yy_c_buf_p - yytext_ptr - D  of the text in front of that byte (stored to a local)"""
+    g = sc.fn('yy_get_next_buffer')
+    if g is None: return None
+    res = ir.Resolver(g); ds = set()
+    for x in g.ins:
+        if x.op != 'sub' or x.ops[1][0] != 'int': continue
+        lds = [y for y in flow.value_slice(g, x.ops[0]) if y.op == 'load']
+        if len(lds) != 2: continue
+        if not (any(sc.is_var(res.loc(y.ops[0]), 'yy_c_buf_p') for y in lds) and any(sc.is_var(res.loc(y.ops[0]), 'yytext') or sc.is_var(res.loc(y.ops[0]), 'yytext_ptr') for y in lds)): continue
+        # ... stored to a local (not merely compared)
+        vals = {x.res}
+        for u in g.ins:
+            if u.op in ('trunc', 'sext', 'zext') and u.ops[0][0] == 'reg' and u.ops[0][1] in vals: vals.add(u.res)
+        if any(u.op == 'store' and u.ops[0][0] == 'reg' and u.ops[0][1] in vals and (lambda a: a is not None and a.op == 'alloca')(g.def_of(u.ops[1])) for u in g.ins): ds.add(x.ops[1][1])
+    return ds.pop() if len(ds) == 1 else None
+
+def r10(ctx, sc):
+    """R10: "this was really a NUL" is decided with the right operator for where the scan pointer stands.  The end-of-buffer byte
+    is a NUL; a NUL inside the data (position p < yy_n_chars) must be scanned as a character, the sentinel (p >= yy_n_chars) starts
+    a refill.  yylex and yyinput each compare yy_c_buf_p with &yy_ch_buf[yy_n_chars] before they call yy_get_next_buffer(), but at
+    different distances from the byte: yylex's match loop has already stepped over it, yyinput steps over it after the test.
+    The distance is derived, not assumed: yy_get_next_buffer() takes the byte to sit at yy_c_buf_p - D (D read from its
+    number_to_move computation), and the net advance A of yy_c_buf_p on the way from the comparison to the call is read from the
+    stores on that path; at the comparison the pointer therefore stands at p + D - A.  The comparison is then evaluated for every
+    0 <= p <= n + 1, n <= 6: it must take the refill side exactly when p >= n."""
+    rep = ctx.rep; v = sc.v; n_inst = 0
+    D = eob_byte_distance(sc)
+    if D is None: rep.broken('C10.R10: cannot read from yy_get_next_buffer of %s where it expects the end-of-buffer byte relative to yy_c_buf_p' % v.name)
+    for canon in ('yylex', 'yyinput'):
+        f = big_yylex(sc) if canon == 'yylex' else sc.fn('yyinput')
+        if f is None: continue
+        res = ir.Resolver(f); cfg = sc.prog.cfg(f)
+        for call in sc.calls(f, 'yy_get_next_buffer'):
+            found = None
+            for b in f.blocks:
+                br = b.ins[-1]
+                if br.op != 'br' or not br.ops or b is call.blk or not cfg.dominates(b, call.blk): continue
+                d = f.def_of(br.ops[0])
+                if d is None or d.op != 'icmp' or d.pred not in ('ule', 'ult', 'uge', 'ugt', 'sle', 'slt', 'sge', 'sgt', 'eq', 'ne'): continue
+                def end_of(val):
+                    """val = &yy_ch_buf[yy_n_chars + c]: returns c"""
+                    g = f.def_of(val)
+                    if g is None or g.op != 'getelementptr' or len(g.ops) != 2: return None
+                    bl = f.def_of(g.ops[0])
+                    if bl is None or bl.op != 'load' or not sc.is_buf(res.loc(bl.ops[0]), 'yy_ch_buf'): return None
+                    af = S.affine(f, g.ops[1], lambda w: _is_var_load(sc, f, res, w, 'yy_n_chars'))
+                    return af[1] if af is not None else None
+                x, y = d.ops
+                if _is_var_load(sc, f, res, x, 'yy_c_buf_p') and end_of(y) is not None: ptr_first, c_ = True, end_of(y)
+                elif _is_var_load(sc, f, res, y, 'yy_c_buf_p') and end_of(x) is not None: ptr_first, c_ = False, end_of(x)
+                else: continue
+                sides = [t for t in cfg.succ[b] if cfg.dominates(t, call.blk)]
+                if len(sides) == 1: found = (br, d, ptr_first, c_, sides[0])
+            if found is None: continue              # (that the comparison exists is C04.R3)
+            br, d, ptr_first, c_, refill = found
+            n_inst += 1
+            key = sc.key('C10.R10', canon, 'NUL-vs-end-test:operator')
+            # net advance of yy_c_buf_p between the comparison and the call
+            is_p = lambda w: _is_var_load(sc, f, res, w, 'yy_c_buf_p')
+            adv = 0; unknown = None
+            between = [s_ for s_ in stores_of(sc, f, 'yy_c_buf_p') if s_ in cfg.reach_from_block(refill, avoid=[call]) and call in cfg.reach(s_)]
+            for s_ in between:
+                g = f.def_of(s_.ops[0])
+                # a constant step of the pointer that lies on every path from the comparison to the call, once
+                if g is not None and g.op == 'getelementptr' and len(g.ops) == 2 and g.ops[1][0] == 'int' and is_p(g.ops[0]) \
+                   and call not in cfg.reach_from_block(refill, avoid=[s_]) and s_ not in cfg.reach(s_, avoid=[call]):
+                    adv += g.ops[1][1]
+                else: unknown = s_
+            if unknown is not None:
+                rep.broken('C10.R10: %s of %s: yy_c_buf_p is assigned (%s) between the NUL-versus-end comparison and yy_get_next_buffer() in a way that is not a constant step on every path' % (canon, v.name, where(unknown)))
+            off = D - adv
+            PRED = {'ule': lambda a, b: a <= b, 'ult': lambda a, b: a < b, 'uge': lambda a, b: a >= b, 'ugt': lambda a, b: a > b,
+                    'sle': lambda a, b: a <= b, 'slt': lambda a, b: a < b, 'sge': lambda a, b: a >= b, 'sgt': lambda a, b: a > b,
+                    'eq': lambda a, b: a == b, 'ne': lambda a, b: a != b}[d.pred]
+            true_is_refill = (f.bmap[br.targets[0]] is refill)
+            bad = None; evals = 0
+            for nn in range(0, 7):
+                for p in range(0, nn + 2):
+                    q = p + off; e = nn + c_
+                    r_ = PRED(q, e) if ptr_first else PRED(e, q)
+                    refills = (r_ == true_is_refill)
+                    evals += 1
+                    if refills != (p >= nn) and bad is None: bad = (p, nn, refills)
+            if bad:
+                p, nn, refills = bad
+                rep.fail('C10.R10', key, where(br),
+                         '%s decides "really a NUL or the end of the buffer" with yy_c_buf_p %s &yy_ch_buf[yy_n_chars%s], evaluated with the pointer standing %d past the byte '
+                         '(yy_get_next_buffer expects it at yy_c_buf_p - %d and the pointer advances by %d between the comparison and the call): for a NUL at position %d of %d '
+                         'characters read the test %s - %s [variant %s]' % (
+                             canon, d.pred if ptr_first else 'is the right operand of ' + d.pred, ('%+d' % c_) if c_ else '', off, D, adv, p, nn,
+                             'starts a refill' if refills else 'treats the byte as data',
+                             'a NUL that is the last byte delivered by a read is taken for the end of the buffer and dropped' if refills else 'the end-of-buffer sentinel is scanned as input', v.name),
+                         variant=v.describe(), replay_input='printf "ab\\0" | scanner with rules [a-z]+ and \\0: the NUL must be reported before end of file')
+            else:
+                rep.ok('C10.R10', '%s %s: yy_c_buf_p %s &yy_ch_buf[yy_n_chars] @%s with the pointer %d past the byte refills exactly for p >= n (%d evaluations)' % (v.name, canon, d.pred, br.line, off, evals))
+    return n_inst
+
 # ---------------------------------------------------------------- driver
 
 def run(ctx):
@@ -532,7 +740,7 @@ def run(ctx):
     g3 = r3_generator(ctx) + r3_unqualified(ctx)
     vs = ctx.variants()
     rep.require(len(vs) >= 100, 'only %d scanner variants compiled to IR' % len(vs))
-    multi = 0
+    multi = 0; backs10 = set()
     for v in vs:
         sc = scanner(v)
         r1(ctx, sc)
@@ -542,11 +750,16 @@ def run(ctx):
         r5(ctx, sc)
         r7(ctx, sc)
         r8(ctx, sc)
+        r9(ctx, sc)
+        for k_ in range(r10(ctx, sc)): backs10.add(v.backend)
+    rep.require(backs10 >= {'nr', 'r', 'cxx', 'c99', 'go'}, 'C10.R10 evaluated a NUL-versus-end comparison only in back ends %s' % sorted(backs10))
     rep.setcount('variants_analysed', len(vs))
     rep.setcount('variants_with_several_start_conditions', multi)
     rep.setcount('generator_obligations_R3', g3)
     rep.floor('C10.R1', 200, 'yylex and yyinput in >=100 variants')
     rep.floor('C10.R8', 90, 'yylex of every C variant')
+    rep.floor('C10.R9', 450, 'two stores in yy_init_buffer, the reader test in yy_get_next_buffer and (C back ends) the store and the return obligation of yy_scan_buffer, >=100 variants')
+    rep.floor('C10.R10', 200, 'the comparisons in yylex and in yyinput of >=100 variants')
     rep.floor('C10.R3', 351, '5 generator obligations + 4 EOF arms in each of >=80 multi-condition variants + 1 in the others')
     rep.floor('C10.R4', 200, 'yy_init_buffer and yyrestart in every variant')
     rep.floor('C10.R7', 500, 'the status stores of yylex, yy_get_next_buffer, yy_flush_buffer, yy_scan_buffer and the reader obligation in >=100 variants')
